@@ -2,18 +2,24 @@
 C06 — measurement projects the state onto the returned outcome.
 
 MODEL objects: `QReg.measureMask r mask d` (the basis index `d` drawn by `WeightedIndex` is an
-input), `QReg.collapseMask`, `QReg.normalize`, `CReg.withState`. Scalars are the reals
-(`Lemmas/RealInst`: `sqrt` is `Real.sqrt`, the thresholds are `1e-15` and `1e-9`). Amplitudes are
-read through `bufFn`; `nrm` is what `get_absolute` returns (sum of `|ψ_i|²` over the buffer).
+input), `QReg.collapseMask`, `QReg.rescale`, `CReg.withState`. Scalars are the reals
+(`Lemmas/RealInst`: `sqrt` is `Real.sqrt`). Amplitudes are read through `bufFn`; `nrm` is what
+`get_absolute` returns (sum of `|ψ_i|²` over the buffer).
 `m' = mask &&& r.qMask` is the set of qubits actually measured; index `i` is *consistent* with
 the draw `d` when `(i ^^^ d) &&& m' = 0`, i.e. `i` and `d` agree on every measured qubit.
 
-FINDING (see `C06_zero`, `C06_zero_fails_degenerate`, `C06_zero_fails_rare`). "Every
-amplitude inconsistent with the outcome is zero" holds only when the collapsed norm exceeds
-`1e-15`. Otherwise `normalize` resets the register to `|0…0>` while `measure_mask` still returns
-the drawn value. This happens for a draw of amplitude 0 (cannot be drawn) but also for a draw of
-positive probability at most `1e-30`: the unit vector `(√(1 − 1e-32), 1e-16)` measured with draw
-`1` returns `1` and leaves the register in `|0>`.
+HISTORY. While `measure_mask` renormalised with `normalize`, "every amplitude inconsistent with
+the outcome is zero" held only when the collapsed norm exceeded `1e-15`: below it `normalize`
+reset the register to `|0…0>` while `measure_mask` still returned the drawn value (this happened
+for a draw of positive probability at most `1e-30`, e.g. the unit vector `(√(1 − 1e-32), 1e-16)`
+measured with draw `1`). The two counterexample theorems `C06_zero_fails_degenerate` and
+`C06_zero_fails_rare` recorded that. With the `rescale` repair (divide by the norm whenever it is
+positive, never reset) the edge case is gone: `C06_zero`, `C06_ratio`, `C06_support` and
+`C06_repeat` now hold for EVERY register, mask and draw, and the counterexample theorems, false of
+the repaired model, are removed (the former second counterexample is now an example of
+`C06_zero`, at the end of the file). What remains of the first one is `C06_impossible_draw`: a
+draw none of whose consistent amplitudes is non-zero — which `WeightedIndex` never produces,
+`C06_possible` — leaves the zero vector (not `|0…0>`), which is still consistent with `C06_zero`.
 -/
 import Qvnt.Lemmas.Measure
 
@@ -62,25 +68,118 @@ theorem C06_beyond (r : QReg ℝ) (mask d : Nat) :
 
 /-! ### the post-measurement state -/
 
-/- The unconditional statement
-   `∀ r mask d i, (i ^^^ d) &&& (mask &&& r.qMask) ≠ 0 → bufFn (r.measureMask mask d).1.psi i = 0`
-   is FALSE (the two counterexamples below); `hbig` excludes the branch of `normalize` that resets
-   the register. -/
-/-- when the collapsed norm exceeds `1e-15`, every amplitude that disagrees with the draw on a
-measured qubit is exactly zero afterwards -/
-theorem C06_zero (r : QReg ℝ) (mask d : Nat)
-    (hbig : RegConsts.tiny < Real.sqrt (nrm (r.collapseMask d (mask &&& r.qMask)))) :
+/-- every amplitude that disagrees with the draw on a measured qubit is exactly zero afterwards —
+for every register, mask and draw (`collapse_mask` zeroes it, and `rescale` multiplies by a number
+or does nothing) -/
+theorem C06_zero (r : QReg ℝ) (mask d : Nat) :
     ∀ i, (i ^^^ d) &&& (mask &&& r.qMask) ≠ 0 → bufFn (r.measureMask mask d).1.psi i = 0 := by
   intro i hi
-  obtain ⟨lam, _, h⟩ := measure_nondeg r mask d hbig
+  obtain ⟨lam, _, h⟩ := measure_scaled r mask d
   rw [h i, if_pos hi, cx_scale_zero]
 
-/-- counterexample 1: `|0>` measured with the (impossible) draw `1`: the collapsed buffer is all
-zero, `normalize` resets to `|0>`, which disagrees with the returned value `1` -/
-theorem C06_zero_fails_degenerate :
-    let r := QReg.withState (R := ℝ) 1 0
-    (0 ^^^ 1) &&& (1 &&& r.qMask) ≠ 0 ∧ bufFn (r.measureMask 1 1).1.psi 0 = 1 ∧
-      (r.measureMask 1 1).2.value = 1 := by
+/-- an impossible draw (the amplitudes consistent with it are all zero; by `C06_possible` the
+sampler never produces one) on a non-empty set of qubits: `collapse_mask` leaves the zero vector,
+`rescale` does not touch it, so afterwards every amplitude is zero and the reported norm is 0.
+(Before the `rescale` repair `normalize` turned this vector into `|0…0>`, which contradicted the
+returned value.) -/
+theorem C06_impossible_draw (r : QReg ℝ) (mask d : Nat) (hne : mask &&& r.qMask ≠ 0)
+    (hzero : nrm (r.collapseMask d (mask &&& r.qMask)) = 0) :
+    (∀ i, bufFn (r.measureMask mask d).1.psi i = 0) ∧ nrm (r.measureMask mask d).1 = 0 := by
+  obtain ⟨h, hz⟩ := measure_impossible r mask d hne hzero
+  exact ⟨hz, by rw [h]; exact hzero⟩
+
+/-- the consistent amplitudes are all multiplied by one positive real number: their mutual ratios
+and their phases are unchanged (every register, mask and draw) -/
+theorem C06_ratio (r : QReg ℝ) (mask d : Nat) :
+    ∃ lam : ℝ, 0 < lam ∧ ∀ i, (i ^^^ d) &&& (mask &&& r.qMask) = 0 →
+      bufFn (r.measureMask mask d).1.psi i = (bufFn r.psi i).scale lam := by
+  obtain ⟨lam, hlam, h⟩ := measure_scaled r mask d
+  refine ⟨lam, hlam, fun i hi => ?_⟩
+  rw [h i, if_neg (by rw [hi]; exact fun h => h rfl)]
+
+/-- … and when a draw takes place (non-empty effective mask) and is possible (`hpos`, which
+`C06_possible` provides) that number is one over the norm of the collapsed vector, so that the
+squared norm afterwards is exactly 1 -/
+theorem C06_ratio_exact (r : QReg ℝ) (mask d : Nat) (hne : mask &&& r.qMask ≠ 0)
+    (hpos : 0 < nrm (r.collapseMask d (mask &&& r.qMask))) :
+    (∀ i, (i ^^^ d) &&& (mask &&& r.qMask) = 0 → bufFn (r.measureMask mask d).1.psi i
+      = (bufFn r.psi i).scale (1 / Real.sqrt (nrm (r.collapseMask d (mask &&& r.qMask))))) ∧
+    nrm (r.measureMask mask d).1 = 1 := by
+  refine ⟨fun i hi => ?_, nrm_measure r mask d hne hpos⟩
+  rw [measure_exact r mask d hne hpos i, if_neg (by rw [hi]; exact fun h => h rfl)]
+
+/-! ### repeating the measurement -/
+
+/-- after a measurement only indices that agree with the draw on the measured qubits carry
+amplitude -/
+theorem C06_support (r : QReg ℝ) (mask d : Nat) (i : Nat)
+    (hi : bufFn (r.measureMask mask d).1.psi i ≠ 0) :
+    i &&& (mask &&& r.qMask) = d &&& (mask &&& r.qMask) := by
+  rw [← xor_and_eq_zero_iff]
+  exact Classical.not_not.1 (fun h => hi (C06_zero r mask d i h))
+
+/-- the drawn index itself keeps a non-zero amplitude, so the state after a possible draw is not
+the zero vector and a second draw can take place -/
+theorem C06_drawn_survives (r : QReg ℝ) (mask d : Nat) (hp : bufFn r.psi d ≠ 0) :
+    bufFn (r.measureMask mask d).1.psi d ≠ 0 :=
+  measure_drawn_ne_zero r mask d hp
+
+/-- measuring the same qubits again returns the same classical register, whichever index of
+non-zero amplitude is drawn the second time -/
+theorem C06_repeat (r : QReg ℝ) (mask d d₂ : Nat)
+    (hd₂ : bufFn (r.measureMask mask d).1.psi d₂ ≠ 0) :
+    ((r.measureMask mask d).1.measureMask mask d₂).2 = (r.measureMask mask d).2 := by
+  have hs := C06_support r mask d d₂ hd₂
+  by_cases h : mask &&& r.qMask = 0
+  · rw [measure_of_zero _ mask d₂ (by rw [measure_qMask]; exact h), measure_qNum,
+      measure_of_zero r mask d h]
+  · rw [measure_of_ne _ mask d₂ (by rw [measure_qMask]; exact h), measure_qNum, measure_qMask,
+      measure_of_ne r mask d h]
+    simp only [hs]
+
+/-! ### the hypotheses can be met: the state `(3/5, 4/5)` -/
+
+/-- draw 1 on `(3/5, 4/5)`: the result is `1`, the amplitude of `|0>` becomes 0, that of `|1>`
+becomes `(4/5) / (4/5)` and the norm is 1 -/
+example : (demoReg.measureMask 1 1).2.value = 1 ∧ bufFn (demoReg.measureMask 1 1).1.psi 0 = 0 := by
+  refine ⟨?_, C06_zero demoReg 1 1 0 (by decide)⟩
+  rw [C06_value demoReg 1 1 rfl (by decide)]; rfl
+
+example : ∃ lam : ℝ, 0 < lam ∧ bufFn (demoReg.measureMask 1 1).1.psi 1 = ⟨4 / 5 * lam, 0 * lam⟩ := by
+  obtain ⟨lam, hl, h⟩ := C06_ratio demoReg 1 1
+  exact ⟨lam, hl, by rw [h 1 (by decide), demoReg, qubitReg_bufFn]; rfl⟩
+
+example : nrm (demoReg.measureMask 1 1).1 = 1 :=
+  (C06_ratio_exact demoReg 1 1 (by decide) demoReg_pos_one).2
+
+/-- `hd₂` of `C06_repeat` can be met: draw 1 twice -/
+example : ((demoReg.measureMask 1 1).1.measureMask 1 1).2 = (demoReg.measureMask 1 1).2 := by
+  apply C06_repeat demoReg 1 1 1
+  apply C06_drawn_survives
+  rw [demoReg, qubitReg_bufFn]
+  intro h
+  have := congrArg Cx.re h
+  norm_num at this
+
+example : (demoReg.measureMask 0 1).1 = demoReg := (C06_empty demoReg 0 1 (by decide)).1
+example : demoReg.measureMask 3 1 = demoReg.measureMask 1 1 := C06_beyond demoReg 3 1
+
+/-- the former counterexample `(√(1 − 1e-32), 1e-16)`, draw `1` (probability `1e-32`, collapsed
+norm `1e-16` below the old `1e-15` threshold): the returned value is `1`, and now the amplitude at
+the inconsistent index 0 is 0 and the squared norm afterwards is exactly 1 -/
+example : Inv rareReg ∧ 0 < nrm (rareReg.collapseMask 1 (1 &&& rareReg.qMask)) ∧
+    Real.sqrt (nrm (rareReg.collapseMask 1 (1 &&& rareReg.qMask))) ≤ RegConsts.tiny ∧
+    (rareReg.measureMask 1 1).2.value = 1 ∧ bufFn (rareReg.measureMask 1 1).1.psi 0 = 0 ∧
+    nrm (rareReg.measureMask 1 1).1 = 1 := by
+  have hq : rareReg.qMask = 1 := rfl
+  refine ⟨rareReg_inv, rareReg_pos_one, rareReg_degenerate, ?_,
+    C06_zero rareReg 1 1 0 (by rw [hq]; decide),
+    (C06_ratio_exact rareReg 1 1 (by rw [hq]; decide) rareReg_pos_one).2⟩
+  rw [C06_value rareReg 1 1 rfl (by decide), hq]; decide
+
+/-- `C06_impossible_draw` is not vacuous: `|0>` measured with the draw `1` -/
+example : let r := QReg.withState (R := ℝ) 1 0
+    (r.measureMask 1 1).2.value = 1 ∧ ∀ i, bufFn (r.measureMask 1 1).1.psi i = 0 := by
   intro r
   have hq : r.qMask = 1 := rfl
   have hne : 1 &&& r.qMask ≠ 0 := by rw [hq]; decide
@@ -92,78 +191,7 @@ theorem C06_zero_fails_degenerate :
     by_cases h0 : i = 0
     · subst h0; simp [normSq_zero]
     · simp [h0, normSq_zero]
-  refine ⟨by rw [hq]; decide, ?_, ?_⟩
-  · rw [measure_degenerate r 1 1 hne (by rw [hzero, Real.sqrt_zero]; exact le_of_lt tiny_pos)]
-    apply bufFn_reset_zero
-    rw [collapse_size, (QReg.withState_spec (R := ℝ) 1 0).1]; decide
-  · rw [C06_value r 1 1 rfl (by decide), hq]; decide
-
-/-- counterexample 2, a draw of positive probability: the unit vector `(√(1 − 1e-32), 1e-16)`
-satisfies the register invariant, the draw `1` has probability `1e-32 > 0`, the returned value is
-`1`, and afterwards the register is `|0>`: amplitude 1 at the inconsistent index 0 -/
-theorem C06_zero_fails_rare :
-    Inv rareReg ∧ nrm rareReg = 1 ∧ 0 < (bufFn rareReg.psi 1).normSq / nrm rareReg ∧
-    (0 ^^^ 1) &&& (1 &&& rareReg.qMask) ≠ 0 ∧
-    (rareReg.measureMask 1 1).2.value = 1 ∧ bufFn (rareReg.measureMask 1 1).1.psi 0 = 1 := by
-  have hq : rareReg.qMask = 1 := rfl
-  refine ⟨rareReg_inv, rareReg_nrm, ?_, by rw [hq]; decide, ?_, ?_⟩
-  · rw [rareReg_nrm, div_one, rareReg, qubitReg_bufFn]
-    simp only [Cx.normSq]
-    unfold tinyAmp
-    norm_num
-  · rw [C06_value rareReg 1 1 rfl (by decide), hq]; decide
-  · rw [measure_degenerate rareReg 1 1 (by rw [hq]; decide) rareReg_degenerate]
-    apply bufFn_reset_zero
-    rw [collapse_size]; decide
-
-/-- the consistent amplitudes are all multiplied by one positive real number (1, or 1/norm):
-their mutual ratios and their phases are unchanged -/
-theorem C06_ratio (r : QReg ℝ) (mask d : Nat)
-    (hbig : RegConsts.tiny < Real.sqrt (nrm (r.collapseMask d (mask &&& r.qMask)))) :
-    ∃ lam : ℝ, 0 < lam ∧ ∀ i, (i ^^^ d) &&& (mask &&& r.qMask) = 0 →
-      bufFn (r.measureMask mask d).1.psi i = (bufFn r.psi i).scale lam := by
-  obtain ⟨lam, hlam, h⟩ := measure_nondeg r mask d hbig
-  refine ⟨lam, hlam, fun i hi => ?_⟩
-  rw [h i, if_neg (by rw [hi]; exact fun h => h rfl)]
-
-/-! ### repeating the measurement -/
-
-/-- after a (non-degenerate) measurement only indices that agree with the draw on the measured
-qubits carry amplitude -/
-theorem C06_support (r : QReg ℝ) (mask d : Nat)
-    (hbig : RegConsts.tiny < Real.sqrt (nrm (r.collapseMask d (mask &&& r.qMask)))) (i : Nat)
-    (hi : bufFn (r.measureMask mask d).1.psi i ≠ 0) :
-    i &&& (mask &&& r.qMask) = d &&& (mask &&& r.qMask) := by
-  rw [← xor_and_eq_zero_iff]
-  exact Classical.not_not.1 (fun h => hi (C06_zero r mask d hbig i h))
-
-/-- measuring the same qubits again returns the same classical register, whichever index of
-non-zero amplitude is drawn the second time -/
-theorem C06_repeat (r : QReg ℝ) (mask d d₂ : Nat)
-    (hbig : RegConsts.tiny < Real.sqrt (nrm (r.collapseMask d (mask &&& r.qMask))))
-    (hd₂ : bufFn (r.measureMask mask d).1.psi d₂ ≠ 0) :
-    ((r.measureMask mask d).1.measureMask mask d₂).2 = (r.measureMask mask d).2 := by
-  have hs := C06_support r mask d hbig d₂ hd₂
-  by_cases h : mask &&& r.qMask = 0
-  · rw [measure_of_zero _ mask d₂ (by rw [measure_qMask]; exact h), measure_qNum,
-      measure_of_zero r mask d h]
-  · rw [measure_of_ne _ mask d₂ (by rw [measure_qMask]; exact h), measure_qNum, measure_qMask,
-      measure_of_ne r mask d h]
-    simp only [hs]
-
-/-! ### the hypotheses can be met: the state `(3/5, 4/5)` -/
-
-/-- draw 1 on `(3/5, 4/5)`: the collapsed norm is `4/5 > 1e-15`; the result is `1`, the amplitude
-of `|0>` becomes 0, and a second measurement returns `1` again -/
-example : (demoReg.measureMask 1 1).2.value = 1 ∧ bufFn (demoReg.measureMask 1 1).1.psi 0 = 0 := by
-  refine ⟨?_, C06_zero demoReg 1 1 demoReg_nondeg_one 0 (by decide)⟩
-  rw [C06_value demoReg 1 1 rfl (by decide)]; rfl
-
-example : ∃ lam : ℝ, 0 < lam ∧ bufFn (demoReg.measureMask 1 1).1.psi 1 = ⟨4 / 5 * lam, 0 * lam⟩ := by
-  obtain ⟨lam, hl, h⟩ := C06_ratio demoReg 1 1 demoReg_nondeg_one
-  exact ⟨lam, hl, by rw [h 1 (by decide), demoReg, qubitReg_bufFn]; rfl⟩
-
-example : (demoReg.measureMask 0 1).1 = demoReg := (C06_empty demoReg 0 1 (by decide)).1
-example : demoReg.measureMask 3 1 = demoReg.measureMask 1 1 := C06_beyond demoReg 3 1
+  refine ⟨?_, (C06_impossible_draw r 1 1 hne hzero).1⟩
+  rw [C06_value r 1 1 rfl (by decide), hq]; decide
 
 end Qvnt
